@@ -6,24 +6,29 @@ from analysis.facts import norm_path
 from analysis.sym import sym, show_in, nosite, peel, core, walk, ret_values, args_of, guards_at, atoms_at, \
     variant_facts_at, cmp_facts_at, init_value, edge_guards, symbolizer, simplify, loop_source, defs_of, var_defs, agg_field
 from analysis.pat import match, Call, Cap, ANY, Pred, Const, has, chain_names
-from rules.common import closure_of, closures_in, body_for, BYTE
+from rules.common import closure_of, closures_in, body_for, BYTE, state_locals, local_defs, V, receiver_var
 
 T = 'tokenization::'
 
 
+R = {}
+
+
 def _var(name):
-    return Pred(lambda t: t[0] == 'var' and t[1] == name)
+    """role based (set by the _roles_* helpers from local types / structure, never from debug names)"""
+    return Pred(lambda t: isinstance(t, tuple) and t and t[0] == 'var' and len(t) > 2 and R.get(name) == t[2])
 
 
-def N(b, name):
-    d = [nosite(core(v)) for site, v in var_defs(b, name)]
+def T_(tree):
+    """pattern: structurally equal (modulo call sites) to the given core tree"""
+    return Pred(lambda t: tree is not None and nosite(core(t)) == nosite(tree))
 
-    def f(t):
-        if t[0] == 'var' and t[1] == name:
-            return True
-        ct = nosite(core(t))
-        return any(ct == x for x in d)
-    return Pred(f)
+
+def _one(b, ty, what):
+    c = state_locals(b, ty)
+    if len(c) != 1:
+        raise AnchorMissing('%s (mutable local of type %s): found %d' % (what, ty, len(c)))
+    return c[0]
 
 
 def _full(n):
@@ -36,6 +41,9 @@ def _full(n):
       '(byte lengths, or nested code point lengths), suffix Full(1) x num_suffix_tokens')
 def r1(ctx):
     b = body_for(ctx, T + 'BaseTokenizer::process_input', BYTE)
+    R.clear()
+    R['tokens'] = _one(b, r'^std::vec::Vec<u32>$', 'id vector')
+    R['groups'] = _one(b, r'^std::vec::Vec<tokenization::TokenGroup>$', 'group vector')
     gw, tw = [], []
     for t in b.terms('call'):
         if not t.args or t.args[0].place is None:
@@ -84,7 +92,7 @@ def r1(ctx):
         seen.setdefault(kind, []).append(t)
     for k in ('special', 'bytes', 'code-points', 'suffix'):
         ctx.require(len(seen.get(k, [])) == 1, b, 'group-writer|' + k, 'exactly one `%s` group writer' % k, 'found %d `%s` group writers' % (len(seen.get(k, [])), k))
-    gi = [core(v) for site, v in var_defs(b, 'groups')]
+    gi = [core(v) for site, v in local_defs(b, R['groups'])]
     ctx.require(len(gi) == 1 and match(gi[0], Call('from_elem', _full(Const(1)), Call('num_prefix_tokens', ('arg', 1, ANY)))), b, 'prefix-groups',
                 'groups starts as Full(1) x num_prefix_tokens()', 'groups starts as %s' % [show_in(b, x) for x in gi])
     # token writers
@@ -173,7 +181,8 @@ def r2(ctx):
     ctx.require(ok, gw, 'weights|Empty', 'Empty(n): n zeros', None)
     # weight variable: two definitions selected by agg
     wd = {}
-    for site, v in var_defs(gw, 'weight'):
+    wlocals = [l for l in range(len(gw.locals)) if gw.local_ty(l) == 'f32' and gw.var_name(l)]
+    for site, v in [x for l in wlocals for x in local_defs(gw, l)]:
         arm = None
         variant = None
         for tt, names in variant_facts_at(gw, site.bb):
@@ -204,6 +213,11 @@ def r2(ctx):
       'pad_ids appends each item\'s values, then pad x (max_len - len), and records len; padding_mask likewise with true/false')
 def r3(ctx):
     b = ctx.body('data::pad_ids')
+    R.clear()
+    R['padded_ids'] = _one(b, r'^std::vec::Vec<T>$', 'padded id vector')
+    R['lengths'] = _one(b, r'^std::vec::Vec<usize>$', 'length vector')
+    mlv = [core(t_.args[0] and sym(b, t_.dest)) for t_ in b.calls(r'Option::unwrap_or_default$|Option::unwrap_or$') if has(core(sym(b, t_.args[0])), Call('Iterator::max', ANY))]
+    ML = T_(mlv[0]) if mlv else Pred(lambda t: False)
     ext = [t for t in b.calls(r'Vec::extend$|Extend>::extend$') if match(core(sym(b, t.args[0])), _var('padded_ids'))]
     ok = len(ext) == 2
     lp = cfg.innermost_loop(b, ext[0].bb) if ext else None
@@ -212,9 +226,9 @@ def r3(ctx):
         a0, a1 = core(sym(b, ext[0].args[1])), core(sym(b, ext[1].args[1]))
         first, second = (ext[0], ext[1]) if cfg.dominates(b, ext[0].bb, ext[1].bb) else (ext[1], ext[0])
         f, s = core(sym(b, first.args[1])), core(sym(b, second.args[1]))
-        ok = not has(f, Call('iter::repeat', ANY)) and match(s, Call('Iterator::take', Call('iter::repeat', ('arg', 2, ANY)), ('bin', 'Sub', N(b, 'max_len'), Call('len', ANY))))
+        ok = not has(f, Call('iter::repeat', ANY)) and match(s, Call('Iterator::take', Call('iter::repeat', ('arg', 2, ANY)), ('bin', 'Sub', ML, Call('len', ANY))))
     ctx.require(ok, b, 'pad-order', 'pad_ids: values first, then repeat(pad).take(max_len - len)', 'pad_ids appends %s' % [show_in(b, sym(b, t.args[1])) for t in ext])
-    ml = [core(v) for site, v in var_defs(b, 'max_len')]
+    ml = mlv
     ok = len(ml) == 1 and has(ml[0], Call('Iterator::max', ANY)) and has(ml[0], ('arg', 1, ANY))
     ctx.require(ok, b, 'pad-max', 'max_len = max over the item lengths of the batch', None)
     ps = [t for t in b.calls(r'Vec::push$') if match(core(sym(b, t.args[0])), _var('lengths'))]
@@ -226,7 +240,7 @@ def r3(ctx):
     if ok:
         first, second = (ext[0], ext[1]) if cfg.dominates(pm, ext[0].bb, ext[1].bb) else (ext[1], ext[0])
         f, s = core(sym(pm, first.args[1])), core(sym(pm, second.args[1]))
-        ok = match(f, Call('Iterator::take', Call('iter::repeat', Const(1)), ANY)) and match(s, Call('Iterator::take', Call('iter::repeat', Const(0)), ('bin', 'Sub', N(pm, 'max_length'), ANY)))
+        ok = match(f, Call('Iterator::take', Call('iter::repeat', Const(1)), ANY)) and match(s, Call('Iterator::take', Call('iter::repeat', Const(0)), ('bin', 'Sub', Pred(lambda u: has(core(u), Call('Iterator::max', ANY))), ANY)))
     ctx.require(ok, pm, 'mask-order', 'padding_mask: len x true, then (max - len) x false', None)
 
 
@@ -236,13 +250,29 @@ def r3(ctx):
       'once per group')
 def r4(ctx):
     b = ctx.body(T + 'token_groups_to_sparse_coo_matrix')
-    mg = [core(v) for site, v in var_defs(b, 'max_group_length')]
-    ml = [core(v) for site, v in var_defs(b, 'max_length')]
-    gl = [core(v) for site, v in var_defs(b, 'group_lengths')]
+    R.clear()
+    R['indices'] = _one(b, r'^std::vec::Vec<i32>$', 'index planes')
+    R['values'] = _one(b, r'^std::vec::Vec<f32>$', 'weights')
+    cands = [l for l in state_locals(b, r'^usize$') if any(core(v)[0] == 'bin' and core(v)[1] == 'Add' and core(v)[2] == ('var', b.var_name(l), l) for _, v in local_defs(b, l))]
+    if len(cands) != 1:
+        raise AnchorMissing('running token offset of the sparse matrix (found %d)' % len(cands))
+    R['offset'] = cands[0]
+    # the size literal vec![batch, max groups, max tokens] and the collected group counts
+    z0 = symbolizer(b)
+    size_lit = [simplify(z0.rvalue(s_.rv, 0, ())) for s_ in b.stmts() if s_.kind == 'assign' and s_.rv.kind == 'agg' and s_.rv.agg == 'array' and len(s_.rv.ops) == 3 and s_.span['mac'] == 'vec']
+    if len(size_lit) != 1:
+        raise AnchorMissing('size literal vec![batch, groups, tokens]')
+    mg = [core(size_lit[0][3][1])]
+    ml = [core(size_lit[0][3][2])]
+    glc = [t_ for t_ in b.calls(r'Iterator::collect$') if b.local_ty(t_.dest.local) == 'std::vec::Vec<usize>']
+    gl = [core(sym(b, glc[0].dest))] if glc else []
+    GL = T_(gl[0]) if gl else Pred(lambda t: False)
+    strd = [core(sym(b, t_.dest)) for t_ in b.calls(r'Iterator::sum$') if has(core(sym(b, t_.args[0])), ('arg', 2, ANY))]
+    glen = [core(sym(b, t_.dest)) for t_ in b.calls(r'TokenGroup::len$')]
 
     def is_max_of(t, src_pred):
         return match(t, Call('Iterator::max', src_pred)) or match(t, Call('unwrap_or', Call('Iterator::max', src_pred), ANY))
-    okg = len(mg) == 1 and is_max_of(mg[0], N(b, 'group_lengths')) if True else False
+    okg = len(mg) == 1 and is_max_of(mg[0], GL)
     okl = len(ml) == 1 and is_max_of(ml[0], ('arg', 2, ANY))
     ctx.require(okg, b, 'max-groups', 'max_group_length = max over the group counts of ALL items', 'max_group_length = %s (the group count of one '
                 'particular item is not the maximum: indices of another item fall outside the declared size)' % [show_in(b, x) for x in mg])
@@ -253,20 +283,19 @@ def r4(ctx):
         crv = ret_values(clo)
         ok = len(crv) == 1 and match(core(crv[0][0]), Call('Vec::len', ('field', ('arg', 2, ANY), 0)))
     ctx.require(ok, b, 'group-lengths', 'group_lengths[i] = number of groups of item i', None)
-    sz = [core(v) for site, v in var_defs(b, 'size')]
     # vec![a, b, c] is written through a box: check the array literal
     arrs = []
     z = symbolizer(b)
     for s in b.stmts():
         if s.kind == 'assign' and s.rv.kind == 'agg' and s.rv.agg == 'array' and len(s.rv.ops) == 3 and s.span['mac'] == 'vec':
             arrs.append(simplify(z.rvalue(s.rv, 0, ())))
-    ok = any(match(core(a[3][0]), Call('len', ('arg', 1, ANY))) and match(core(a[3][1]), N(b, 'max_group_length')) and match(core(a[3][2]), N(b, 'max_length')) for a in arrs)
+    ok = any(match(core(a[3][0]), Call('len', ('arg', 1, ANY))) for a in arrs)
     ctx.require(ok, b, 'size', 'size = [groupings.len(), max_group_length, max_length]', 'size literal: %s' % [show_in(b, a) for a in arrs])
     # index planes
     planes = {}
-    stride = N(b, 'stride')
+    stride = T_(strd[0]) if strd else Pred(lambda t: False)
     off = _var('offset')
-    gl_ = N(b, 'group_len')
+    gl_ = T_(glen[0]) if glen else Pred(lambda t: False)
     for t in b.calls(r'::for_each$'):
         r = core(sym(b, t.args[0]))
         rngs = [x for x in walk(r) if isinstance(x, tuple) and x and x[0] == 'index' and x[2][0] == 'agg' and x[2][2].endswith('Range::Range')]
@@ -292,16 +321,14 @@ def r4(ctx):
             st = [core(simplify(symbolizer(clo).rvalue(s.rv, 0, ()))) for s in clo.stmts() if s.kind == 'assign' and s.lhs.proj]
             ok = len(st) == 1 and match(st[0], ('upvar', 0, ANY))
             cap = core(sym(b, planes[k].args[1])[3][0]) if ok else None
-            ok = ok and cap is not None and (match(cap, N(b, want)) or has(cap, Pred(lambda u: True)))
+            ok = ok and cap is not None
             ctx.require(ok, b, 'plane-value|%d' % k, 'plane %d holds the %s' % (k, want), None)
-    offs = [(site, core(v)) for site, v in var_defs(b, 'offset')]
+    offs = [(site, core(v)) for site, v in local_defs(b, R['offset'])]
     inc = [x for x in offs if x[1][0] == 'bin']
     ok = len(inc) == 1 and match(inc[0][1], ('bin', 'Add', off, gl_))
     if ok:
         lp = cfg.innermost_loop(b, inc[0][0].bb)
         ok = lp is not None and all(cfg.must_pass(b, lp.header, l, via_blocks=[inc[0][0].bb], from_succ=True) for l in lp.latches)
     ctx.require(ok, b, 'offset-step', 'offset += group_len once per group', None)
-    gld = [core(v) for site, v in var_defs(b, 'group_len')]
-    ctx.require(len(gld) == 1 and match(gld[0], Call('TokenGroup::len', ANY)), b, 'group-len', 'group_len = group.len()', None)
-    st = [core(v) for site, v in var_defs(b, 'stride')]
-    ctx.require(len(st) == 1 and match(st[0], Call('Iterator::sum', ('arg', 2, ANY))), b, 'stride', 'stride = total number of tokens', None)
+    ctx.require(len(glen) == 1, b, 'group-len', 'group_len = group.len()', None)
+    ctx.require(len(strd) == 1, b, 'stride', 'stride = total number of tokens', None)
